@@ -6,6 +6,8 @@ VERIF = os.path.dirname(os.path.dirname(os.path.abspath(__file__)))
 REPO = "/repo"
 ENV = dict(os.environ, GOFLAGS="-mod=mod", GOPROXY="off", GOSUMDB="off", GOTOOLCHAIN="local", GOWORK="off")
 PROPS = [c["property_id"] for c in json.load(open(os.path.join(VERIF, "MANIFEST.json")))["checks"]]
+if os.environ.get("FA_PROPS"):
+    PROPS = os.environ["FA_PROPS"].split(",")
 
 def run(diff):
     d = tempfile.mkdtemp(prefix="gfs3-rf-")
